@@ -271,6 +271,26 @@ func (e *Exec) intrinsic(name string, fn *ssa.Function, args []Value) (Value, bo
 		return r, true
 	case "github.com/cosmos/cosmos-sdk/types.AccAddressFromBech32":
 		return e.accAddressFromBech32(e.asBytes(args[0], name)), true
+	case "github.com/cosmos/cosmos-sdk/types.GetFromBech32":
+		// well-formed bech32 with the expected prefix; unlike AccAddressFromBech32 the payload may be
+		// empty or longer than 255 bytes (b32ok implies b32wf)
+		sv := e.asBytes(args[0], name)
+		sp := e.packBytes(sv, strCap)
+		wf := tb.UF("b32wf", 0, sp)
+		e.addPC(tb.Implies(tb.UF("b32ok", 0, sp), wf))
+		if len(e.abstractAddr) == 0 {
+			e.addPC(tb.Implies(tb.Ult(sv.len, tb.BV(8, 64)), tb.Not(wf)))
+		}
+		nilBytes := &SliceV{len: tb.BV(0, 64), gocap: tb.BV(0, 64), isNil: tb.tt}
+		if !e.branch(wf) {
+			return TupleV{nilBytes, e.newErr("invalid bech32 string")}, true
+		}
+		l := tb.UF("b32declen", 64, sp)
+		e.addPC(tb.UleRaw(l, tb.BV(addrCap, 64)))
+		tb.DeclareUB(l, addrCap)
+		r := e.bytesFromTerm(tb.UF("b32dec", 8*addrCap, sp), addrCap, false)
+		r.len, r.gocap, r.minLen = l, l, 0
+		return TupleV{r, e.nilErr()}, true
 	case "github.com/cosmos/cosmos-sdk/types/bech32.ConvertAndEncode":
 		s := e.b32Encode(e.asBytes(args[1], name))
 		return TupleV{s, e.nilErr()}, true
